@@ -1084,10 +1084,70 @@ def _probe_nested_buffered():
                    "keyed (template, cache_enabled); text %r" % (bad, NESTED_BUF_TEXTS["nested"]), KEY_NESTED_BUF)
 
 
+KEY_INHERITED = "inherited-section-cache-owner"
+INHERITED_TEXTS = {
+    "base": ('<%def name="nav()" cached="True" buffered="True"><% tick("base.nav") %>NAV</%def>'
+             '<%def name="foot()" cached="True"><% tick("base.foot") %>FOOT</%def>[${nav()}|${foot()}|${next.body()}]'),
+    "one": '<%inherit file="BASE"/>one',
+    "two": '<%inherit file="BASE"/>two',
+    "three": ('<%inherit file="BASE"/><%def name="nav()" cached="True" buffered="True"><% tick("three.nav") %>THREE</%def>'
+              '<%def name="foot()" cached="True"><% tick("three.foot") %>3FOOT</%def>three:${nav()}:${foot()}'),
+}
+
+
+def _probe_inherited():
+    """Cached sections of a base template rendered through inheriting templates belong to the BASE template's cache:
+    created once for all children, invalidated through base.cache, never mixed up with a child's section of the same
+    name.  Expectations by construction."""
+    core.setup_repo()
+    _register()
+    from mako.lookup import TemplateLookup
+
+    tag = "/vf17i_%d_%d" % (os.getpid(), next(_uniq))
+    lk = TemplateLookup(cache_impl="vf17rec")
+    store, log, ticks = {}, [], []
+    T = {}
+    for name, text in INHERITED_TEXTS.items():
+        lk.put_string("%s/%s.html" % (tag, name), text.replace("BASE", tag + "/base.html"))
+    for name in INHERITED_TEXTS:
+        T[name] = lk.get_template("%s/%s.html" % (tag, name))
+        T[name]._vf_store, T[name]._vf_log = store, log
+    case = {"probe": KEY_INHERITED, "templates": INHERITED_TEXTS}
+    steps = [
+        ("render one", lambda: T["one"].render_unicode(tick=ticks.append), "[NAV|FOOT|one]", ["base.nav", "base.foot"]),
+        ("render one again", lambda: T["one"].render_unicode(tick=ticks.append), "[NAV|FOOT|one]", []),
+        ("render two (same base)", lambda: T["two"].render_unicode(tick=ticks.append), "[NAV|FOOT|two]", []),
+        ("base.cache.invalidate_def('nav'); render one", lambda: (T["base"].cache.invalidate_def("nav"), T["one"].render_unicode(tick=ticks.append))[1],
+         "[NAV|FOOT|one]", ["base.nav"]),
+        ("base.cache.invalidate_def('foot'); render two", lambda: (T["base"].cache.invalidate_def("foot"), T["two"].render_unicode(tick=ticks.append))[1],
+         "[NAV|FOOT|two]", ["base.foot"]),
+        ("render three (own nav/foot of the same names)", lambda: T["three"].render_unicode(tick=ticks.append), "[NAV|FOOT|three:THREE:3FOOT]",
+         ["three.nav", "three.foot"]),
+        ("one.cache.invalidate_def('nav') (not the owner); render one", lambda: (T["one"].cache.invalidate_def("nav"), T["one"].render_unicode(tick=ticks.append))[1],
+         "[NAV|FOOT|one]", []),
+        ("base.cache_enabled=False; render two", lambda: (setattr(T["base"], "cache_enabled", False), T["two"].render_unicode(tick=ticks.append))[1],
+         "[NAV|FOOT|two]", ["base.nav", "base.foot"]),
+    ]
+    done = []
+    for what, fn, exp_out, exp_ticks in steps:
+        del ticks[:]
+        done.append(what)
+        try:
+            out = fn()
+        except Exception as e:  # noqa: BLE001
+            return Failure(case, "after %r: raised %s: %s" % (done, type(e).__name__, e), KEY_INHERITED + ":raised")
+        if out != exp_out or ticks != exp_ticks:
+            return Failure(case, "after %r: expected output %r with bodies executed %r, observed %r with %r (texts: %r)"
+                           % (done, exp_out, exp_ticks, out, list(ticks), INHERITED_TEXTS), KEY_INHERITED)
+    return None
+
+
 def run_probe(name, case=None):
     """-> Failure | None.  A probe fails with its own key only if its control history passes."""
     if name == KEY_NESTED_BUF:
         return _probe_nested_buffered()
+    if name == KEY_INHERITED:
+        return _probe_inherited()
     pc, ctl = _probe_cases()[name]
     case = case or dict(pc, probe=name)
     body = {k: v for k, v in case.items() if k != "probe"}
@@ -1197,7 +1257,7 @@ def shard_search(task):
     return ev, fails
 
 
-PROBES = (KEY_COLLISION, KEY_BEAKER_SET, KEY_EARLY_INV, KEY_NESTED_BUF)
+PROBES = (KEY_COLLISION, KEY_BEAKER_SET, KEY_EARLY_INV, KEY_NESTED_BUF, KEY_INHERITED)
 
 
 def run(ctx):
